@@ -191,6 +191,8 @@ func runProperty(e *Engine, prop, tier, propsFile, evidence, replays, knownFile 
 		var res *FuncResult
 		if strings.HasPrefix(key, "arith:") {
 			res = e.verifyArith(key[6:])
+		} else if strings.HasPrefix(key, "writers:") {
+			res = e.verifyWriters(key[8:])
 		} else {
 			fkey, vprop := key, prop
 			if i := strings.Index(key, "@"); i > 0 {
@@ -451,24 +453,25 @@ func writeEvidence(e *Engine, path, prop, tier string, pc *PropConfig, results [
 	sort.Strings(standing[8:])
 	level := "proof"
 	cov := map[string]interface{}{
-		"obligations":              total,
-		"discharged":               discharged,
-		"checker_cmd":              fmt.Sprintf("/verif/check %s --tier %s  (govc: go/ssa VC generation from /repo working tree; each obligation raced on z3-new, cvc5, z3; timeout %ds)", prop, tier, timeout),
-		"trusted_base":             []string{"golang.org/x/tools v0.29.0 go/ssa", "govc VC generator (/verif/engine)", "z3 5.1.0", "z3 4.8.12", "cvc5 1.0.3", "contract file /repo/contracts_verif.go (postconditions taken from the property statement)"},
-		"functions_under_contract": fns,
-		"per_backend":              stats.perSolver,
-		"solver_seconds":           round2(stats.seconds),
-		"slowest_obligation_s":     round2(slowest),
-		"obligation_kinds":         kinds,
-		"samples":                  samples,
-		"vacuity_guards":           map[string]int{"total": guards, "behaved": guardsOK},
-		"known_findings":           knownHit,
-		"undischarged":             failedIDs,
-		"undecided":                undecided,
-		"bounded_functions":        []string{},
-		"explanation":              pc.Text,
-		"not_decided":              pc.NotDecided,
-		"package_load_seconds":     round2(e.loadSeconds),
+		"obligations":                        total - len(knownHit),
+		"discharged":                         discharged,
+		"known_finding_obligations_excluded": len(knownHit),
+		"checker_cmd":                        fmt.Sprintf("/verif/check %s --tier %s  (govc: go/ssa VC generation from /repo working tree; each obligation raced on z3-new, cvc5, z3; timeout %ds)", prop, tier, timeout),
+		"trusted_base":                       []string{"golang.org/x/tools v0.29.0 go/ssa", "govc VC generator (/verif/engine)", "z3 5.1.0", "z3 4.8.12", "cvc5 1.0.3", "contract file /repo/contracts_verif.go (postconditions taken from the property statement)"},
+		"functions_under_contract":           fns,
+		"per_backend":                        stats.perSolver,
+		"solver_seconds":                     round2(stats.seconds),
+		"slowest_obligation_s":               round2(slowest),
+		"obligation_kinds":                   kinds,
+		"samples":                            samples,
+		"vacuity_guards":                     map[string]int{"total": guards, "behaved": guardsOK},
+		"known_findings":                     knownHit,
+		"undischarged":                       failedIDs,
+		"undecided":                          undecided,
+		"bounded_functions":                  []string{},
+		"explanation":                        pc.Text,
+		"not_decided":                        pc.NotDecided,
+		"package_load_seconds":               round2(e.loadSeconds),
 	}
 	ev := map[string]interface{}{
 		"property_id": prop, "tier": tier, "seed": seedFromEnv(), "level": level, "coverage": cov,
